@@ -6,6 +6,7 @@ package parser
 
 import (
 	"fmt"
+	"sort"
 
 	grammar "github.com/acekingke/yaccgo/Grammar"
 	item "github.com/acekingke/yaccgo/Items"
@@ -127,8 +128,8 @@ func (v *astDeclareVistor) Process(node *Node) {
 		//set other value
 		v.code = n.CodeList
 		v.union = n.Union
-		for key, id := range v.idsymtabl {
-			if id.Value == 0 {
+		for _, key := range sortedNames(v.idsymtabl) {
+			if v.idsymtabl[key].Value == 0 {
 				v.idMaxValue++
 				v.idsymtabl[key].Value = v.idMaxValue
 			}
@@ -243,7 +244,8 @@ func (w *Walker) BuildLALR1() *lalr.LALR1 {
 		//1. create symbo
 		index := 1
 		// first move the terminal symbol first
-		for _, id := range v.idsymtabl {
+		for _, name := range sortedNames(v.idsymtabl) {
+			id := v.idsymtabl[name]
 			if id.IDTyp == TERMID {
 				terminals = append(terminals, id)
 			}
@@ -369,4 +371,19 @@ func (v *RootVistor) GetCodeCopy() string {
 
 func (v *RootVistor) GetRules(index int) *oneRule {
 	return v.rules[index]
+}
+
+// sortedNames returns the identifier names in a fixed order, map iteration order is random
+func sortedNames(m map[string]*Idendity) []string {
+	names := make([]string, 0, len(m))
+	for name := range m {
+		names = append(names, name)
+	}
+	sort.Strings(names)
+	return names
+}
+
+// SortedNames returns the names of the identifier table in a fixed order
+func (v *RootVistor) SortedNames() []string {
+	return sortedNames(v.idsymtabl)
 }
